@@ -82,3 +82,6 @@ MM("c15-provider-shutdown-under-lock", "C15", [(FT, "BlockingPortalProvider.__ex
 M("c15-provider-forgets-portal-after-shutdown", "C15", FT, "BlockingPortalProvider.__exit__",
   "                portal_cm = self._portal_cm\n                self._portal_cm = None\n                del self._portal\n\n        if portal_cm:\n            portal_cm.__exit__(None, None, None)",
   "                portal_cm = self._portal_cm\n\n        if portal_cm:\n            try:\n                portal_cm.__exit__(None, None, None)\n            finally:\n                with self._lock:\n                    self._portal_cm = None\n                    del self._portal", ["R15-g"])
+N("c15-n-provider-exit-else-form", "C15", FT, "BlockingPortalProvider.__exit__",
+  "            if not self._leases:\n                portal_cm = self._portal_cm\n                self._portal_cm = None\n                del self._portal",
+  "            if self._leases == 0:\n                del self._portal\n                portal_cm, self._portal_cm = self._portal_cm, None")
